@@ -241,5 +241,10 @@ class NumericArray(list):
                       repr(range), repr(elems)))
           yield e
         else:
-          yield float(e)
+          f = float(e)
+          if not math.isfinite(f):
+            # (e.g. 1e400: it would be written as inf)
+            raise gfapy.ValueError("Value is too large: {}\n".format(e)+
+                "Numeric array string: {}".format(string))
+          yield f
     return cls(list(gen()))
